@@ -165,7 +165,10 @@ CONTEXTS = [('', ' of Lot 1'), ('', ' of the Lot 1'), ('', ' Lot 1'),
             ('', ', Lot 1'), ('Lot 2, ', ''), ('Lots 1 - 3; ', ', Lot 5'),
             ('', ' less and except the road'), ('', ' of Lots 4 and 5'),
             ('that part of the ', ' lying north of the river'),
-            ('', '; '), ('', ' and the '), ('ALL of the ', '')]
+            ('', '; '), ('', ' and the '), ('ALL of the ', ''),
+            # closing punctuation directly after the chain
+            ('(', ')'), ('Lot 1 (', ')'), ('', ': less and except the road'),
+            ('', '& Lot 2'), ('Lot 3 [', ']')]
 
 
 def check_context(chain, spellings, joiners, cfg, head, tail, ctx, rep, pytrs):
